@@ -143,8 +143,12 @@ void h_CHOICE_encode_oer(void) {
 	c.present = present;
 	if(present == 1) { c.choice.x.v[0] = vals[0]; c.choice.x.v[1] = vals[1]; c.choice.x.got = 2; }
 	if(present == 2) { vy.v[0] = vals[0]; vy.v[1] = vals[1]; vy.got = 2; c.choice.y = has_y ? &vy : 0; }
+#ifdef VF_FAIL
+	{ VF_SCALAR(long, fail_at); __CPROVER_assume(fail_at >= 0 && fail_at <= 4); vf_cb_fail_at = fail_at; }
+#endif
 	asn_enc_rval_t er = CHOICE_encode_oer(&C_td, 0, &c, vf_cb, 0);
 	VF_CANARY();
+	if(vf_cb_failed) { __CPROVER_assert(er.encoded == -1, "C07: a failing output callback makes the call fail"); return; }
 	if(present == 0 || present == 3 || (present == 2 && !has_y) || vals[0] == 0xFF) {
 		__CPROVER_assert(er.encoded == -1, "C07: no alternative selected, selected alternative absent or not encodable: clean failure");
 		return;
